@@ -195,6 +195,41 @@ def builtin_near_misses():
     return out
 
 
+def dirscan_sweep(rnd):
+    """%dirscan(dir) on directories whose regular-file names add up to about the 20480-byte result buffer: uniform name
+    lengths (some dividing the buffer exactly, some not), a few files more and fewer than fit, and mixed lengths."""
+    out = []
+
+    def one(tag, names):
+        s = Script("adv:dirscan")
+        d = "ds" + tag
+        s.add("mkdir %s" % bl(d.encode()), op="mkdir")
+        for nm in names:
+            s.add("file %s []" % bl((d + "/" + nm).encode()), op="file")
+        s.file("m.cfg", MAGIC + b"begin A\nfiles %dirscan(" + d.encode() + b")\nend\n")
+        s.init(); s.reg("null", 1); s.reg("A", 2)
+        s.expand(b"%dirscan(" + d.encode() + b")")
+        s.parse("m.cfg")
+        s.free()
+        out.append(s)
+
+    def name(i, ln):
+        return ("%04d" % i + "f" * ln)[:ln]
+    for ln in (5, 7, 10, 15, 16, 31, 63, 100, 127, 200, 254, 255):
+        fit = 20480 // (ln + 1)
+        for extra in (-1, 0, 3):
+            if ln < 10 and extra != 3:
+                continue
+            one("%d_%d" % (ln, extra + 1), [name(i, ln) for i in range(fit + extra)])
+    for k in range(3):
+        names, tot, i = [], 0, 0
+        while tot < 20480 + 600:
+            ln = rnd.choice([4, 9, 17, 33, 64, 90, 128, 201, 255])
+            names.append(name(i, ln)); tot += ln + 1; i += 1
+        one("mix%d" % k, names)
+    return out
+
+
 def find_boundary_sweep():
     """spifconf_find_file() exactly at the capacity of its static path buffers: for a few name lengths every search-path
     entry length from PATH_MAX-3-len(name) to PATH_MAX+1-len(name), with and without a trailing '/', as the second entry
@@ -584,7 +619,7 @@ def run(ctx):
     model_check(ctx)
     log("model checking done %.0fs" % (time.time() - ctx.t0))
     rnd = random.Random(ctx.seed)
-    adv = adversarial(rnd) + builtin_near_misses()
+    adv = adversarial(rnd) + builtin_near_misses() + dirscan_sweep(rnd)
     ev = drive(ctx, exe, adv, "adversarial")
     ctx.sample({"adversarial_families": sorted(set(re.sub(r"-\d+$", "", s.fam) for s in adv))})
     log("adversarial done %.0fs" % (time.time() - ctx.t0))
